@@ -7,9 +7,10 @@ import sys
 
 sys.path.insert(0, os.path.dirname(os.path.abspath(__file__)))
 
-if os.environ.get("PYTHONHASHSEED") != "0":
+_want = os.environ.get("ALDYSIM_DRIVER_HASHSEED", "0")  # (the determinism sweep runs the driver under others)
+if os.environ.get("PYTHONHASHSEED") != _want:
     # the driver itself must not depend on hash order; pin it anyway
-    os.environ["PYTHONHASHSEED"] = "0"
+    os.environ["PYTHONHASHSEED"] = _want
     os.execv(sys.executable, [sys.executable] + sys.argv)
 
 import warnings  # noqa: E402
